@@ -45,6 +45,7 @@ class Engine(ExprMixin, CallMixin, StmtMixin):
         self.ctx_hooks = {}
         self.store_monitors = {}
         self.coerce_hooks = {}
+        self.eq_hooks = {}
         self.str_atoms = {}
         self.opaque_defs = {}
         self.arg_hooks = {}
@@ -135,6 +136,21 @@ class Engine(ExprMixin, CallMixin, StmtMixin):
         d = ClassDecl(name, **kw)
         self.classes[name] = d
         return d
+
+    def finalize_async(self):
+        """coroutine functions suspend: everything the rely relation may change is in their frame"""
+        shared = [f"{c}.{f}" for (c, f) in self.async_shared] + ["ghost:" + g for g in self.async_ghost]
+        for c in self.contracts.values():
+            if c.is_async and not getattr(c, "_async_done", False):
+                for m in shared:
+                    if m not in c.modifies:
+                        c.modifies.append(m)
+                for spec in c.raises.values():
+                    if isinstance(spec, dict) and spec.get("modifies") is not None:
+                        for m in shared:
+                            if m not in spec["modifies"]:
+                                spec["modifies"].append(m)
+                c._async_done = True
 
     def objT(self, cname):
         d = self.classes.get(cname)
@@ -340,8 +356,20 @@ class Engine(ExprMixin, CallMixin, StmtMixin):
                 env[nm] = entry.env[nm]
         return env
 
+    def check_spawned(self, st, node):
+        """coroutines handed to asyncio.create_task start at the creator's next suspension point (or return):
+        their preconditions are proof obligations there"""
+        for cc, cargs, ckw, site in st.meta.get("spawned", ()):
+            bound = self.bind_params(cc, cargs, ckw, site)
+            env = self.spec_env_for_call(cc, bound, st)
+            pre = st.clone(env=dict(env))
+            for i, r in enumerate(cc.requires):
+                self.emit("pre@spawn", f"{cc.key}#req{i + 1}", site, st, self.spec(r, pre, env=env, old=pre, isolate=True),
+                          note=r if isinstance(r, str) else "")
+        return st.set_meta("spawned", ())
+
     def check_normal_exit(self, c, o, entry, node):
-        final = o.st
+        final = self.check_spawned(o.st, node)
         # sidecar ghost code anchored at the normal exit of the function
         for gname, gexpr in getattr(c, "ghost_exit", ()):
             env0 = self.post_env(c, final, entry)
